@@ -4,3 +4,8 @@ import AxVerif.Model.Wire
 import AxVerif.Generated.Wire
 import AxVerif.Driver.Wire
 import AxVerif.Thm.C20
+import AxVerif.Model.BTree
+import AxVerif.Model.Balance
+import AxVerif.Generated.BTree
+import AxVerif.Driver.BTree
+import AxVerif.Thm.C10
